@@ -80,7 +80,8 @@ structure CInv (c : Chunk) (l : List (Int × Hist)) : Prop where
   /-- a stored staleness marker is empty (`&histogram.Histogram{Sum: h.Sum}`) -/
   staleForm : ∀ s ∈ c.rev, s.sum = staleBits → s.count = 0 ∧ s.zcount = 0 ∧ s.pB = [] ∧ s.nB = []
   /-- a chunk that starts with a staleness marker has the empty layout -/
-  staleFirst : ∀ s, c.rev.getLast? = some s → s.sum = staleBits → c.pSpans = [] ∧ c.nSpans = []
+  staleFirst : ∀ s, c.rev.getLast? = some s → s.sum = staleBits →
+    c.pSpans = [] ∧ c.nSpans = [] ∧ c.schema = 0 ∧ c.zt = 0 ∧ c.custom = []
 
 theorem AdjOk.all_live {g : Bool} : ∀ {l : List (Int × Hist)} {x : Int × Hist}, AdjOk g (x :: l) → x.2.stale = false →
     ∀ p ∈ x :: l, p.2.stale = false
@@ -129,7 +130,7 @@ theorem CInv.first (c0 : Chunk) (he : c0.rev = []) (t : Int) (h : Hist) (hwf : W
     rw [appendRaw_nil_stale c0 he t h hs]
     have hsum : h.sum = staleBits := by simpa [Hist.stale] using hs
     refine ⟨?_, by simp [idxs_nil], by simp [idxs_nil], by simpa using hwf, by simpa using hfl, by simp [AdjOk],
-      ?_, fun _ _ _ => ⟨rfl, rfl⟩⟩
+      ?_, fun _ _ _ => ⟨rfl, rfl, rfl, rfl, rfl⟩⟩
     · refine ⟨?_, trivial⟩
       exact ⟨rfl, fun _ => hsum, fun h' => by simp [hs] at h'⟩
     · intro s hs' _
